@@ -799,7 +799,53 @@ def analyse(spec):
         spec["hazard_class"] = True
 
 
+def regression_cases():
+    """Witnesses of the repaired mechanisms 755f964 (KEY_FIRST) and 117c35f
+    (KEY_UNPACK), with hand-written nested-loop twins."""
+    def case(key, form, scope, hy, py, kinds, final, take=None, first_sites=()):
+        return {"form": form, "scope": scope, "variants": [{"hy": hy, "py": py, "wrap": None, "norms": {}}],
+                "take": take, "nclauses": len(kinds), "setx": [], "kinds": kinds, "final": final,
+                "prebound_clash": [], "hazard": {"names": [], "cls": False},
+                "first_sites": list(first_sites), "first_slot": 0, "regress": key}
+    yield case(KEY_FIRST, "lfor", "module",
+               "(setv x [1 2])\n(setv R (lfor x (L 1 x) :do (L 2 0) (* x 10)))",
+               "x = [1, 2]\n_acc = []\nfor x__c0 in L(1, x):\n    L(2, 0)\n    _acc.append(x__c0 * 10)\nR = _acc",
+               ["for", "do"], "value")
+    yield case(KEY_FIRST, "lfor", "function",
+               "(defn scope []\n  (setv x 3)\n  (setv R (lfor :setv x (+ x 1) :do (L 1 x) x))\n  (SNAP (locals)))\n(scope)",
+               "def scope():\n    x = 3\n    _acc = []\n    x__c0 = x + 1\n    L(1, x__c0)\n    _acc.append(x__c0)\n"
+               "    R = _acc\n    SNAP(locals())\nscope()",
+               ["setv", "do"], "value")
+    yield case(KEY_FIRST, "sfor", "class",
+               "(defclass Scope []\n  (setv y [1 2])\n  (setv R (sfor x y :do (L 1 x) x)))",
+               "class Scope:\n    y = [1, 2]\n    _acc = set()\n    for x__c0 in y:\n        L(1, x__c0)\n"
+               "        _acc.add(x__c0)\n    R = _acc",
+               ["for", "do"], "value")
+    yield case(KEY_FIRST, "gfor", "module",
+               "(setv x [1 2 3])\n(setv R (TAKE (gfor x x :do (L 1 x) (* x 2)) 2))",
+               "x = [1, 2, 3]\ndef _g(_it0):\n    for x__c0 in _it0:\n        L(1, x__c0)\n        yield x__c0 * 2\n"
+               "R = TAKE(_g(x), 2)",
+               ["for", "do"], "value", take=2)
+    yield case(KEY_UNPACK, "lfor", "module",
+               "(setv R (lfor x [1 2] #* (do (L 1 x) [x x])))",
+               "_acc = []\nfor x__c0 in [1, 2]:\n    for _t in (L(1, x__c0), [x__c0, x__c0])[1]:\n        _acc.append(_t)\nR = _acc",
+               ["for"], "star")
+    yield case(KEY_UNPACK, "dfor", "function",
+               "(defn scope []\n  (setv R (dfor x [1 2] #** (do (L 1 x) {x (* x 2)})))\n  (SNAP (locals)))\n(scope)",
+               "def scope():\n    _acc = {}\n    for x__c0 in [1, 2]:\n        for _kk, _vv in (L(1, x__c0), {x__c0: x__c0 * 2})[1].items():\n"
+               "            _acc[_kk] = _vv\n    R = _acc\n    SNAP(locals())\nscope()",
+               ["for"], "dstar")
+    yield case(KEY_UNPACK, "gfor", "module",
+               "(setv R (TAKE (gfor x [1 2] #* (do (setv q x) [q q])) 3))",
+               "def _g(_it0):\n    global q\n    for x__c0 in _it0:\n        for _t in [(q := x__c0), q]:\n            yield _t\n"
+               "R = TAKE(_g([1, 2]), 3)",
+               ["for"], "star", take=3)
+
+
 def cases(seed, tier, shard, nshards):
+    for j, case in enumerate(regression_cases()):
+        if j % nshards == shard:
+            yield case
     i = 0
     while True:
         rng = rng_for(seed, ID, shard, i)
@@ -972,6 +1018,8 @@ def run_case(case):
     lenient = scope == "class" and bool(case["setx"])
     classes = ["scope:" + scope, "form:" + form, "clauses:%d" % case["nclauses"], "final:" + str(case["final"])]
     classes += ["clause:" + k for k in sorted(set(case["kinds"]))]
+    if case.get("regress"):
+        classes.append("regress:" + case["regress"])
     if case["setx"]:
         classes.append("setx" + ("-class-exempt" if lenient else ""))
     if case["prebound_clash"]:
